@@ -127,13 +127,20 @@ def run_post_case(impl, case, out):
         w.teardown()
 
 
-def run_count_case(impl, k, out):
+def run_count_case(impl, k, out, form=None):
+    import urllib.parse
     w = peer.make_world(impl, server_kwargs=dict(ping_interval=2, ping_timeout=1))
-    case = {'packets': k}
+    case = {'packets': k, 'form': form}
     try:
         sid = peer.sid_of(peer.open_polling(w))
         peer.poll(w, sid)
         body = '\x1e'.join('4m%d' % i for i in range(k))
+        if form == 'quote':
+            body = 'd=' + urllib.parse.quote(body, safe='')
+        elif form == 'quote_plus':
+            body = 'd=' + urllib.parse.quote_plus(body)
+        elif form == 'raw':
+            body = 'd=' + body
         r = peer.post(w, sid, body)
         w.run_until(w.now + HORIZON)
         msgs = [e[2] for e in w.events if e[0] == 'message']
@@ -226,7 +233,10 @@ def _work(chunk):
             if kind == 'post':
                 run_post_case(impl, case, out)
             elif kind == 'count':
-                run_count_case(impl, case, out)
+                if isinstance(case, dict):
+                    run_count_case(impl, case['packets'], out, case.get('form'))
+                else:
+                    run_count_case(impl, case, out)
             else:
                 run_frame_case(impl, case, out)
         except report.Livelock as e:
@@ -250,6 +260,12 @@ def jobs_for(ctx):
                                                             'chunks': chunks, 'poll': poll}))
         for k in range(0, 19):
             jobs.append(('count', impl, k))
+            if k >= 1:
+                for form in ('quote', 'quote_plus', 'raw'):
+                    jobs.append(('count', impl, {'packets': k, 'form': form}))
+        for k in (40, 100):
+            for form in (None, 'quote'):
+                jobs.append(('count', impl, {'packets': k, 'form': form}))
         for L in [6, 10, 100, 1000000]:
             for n in sorted({1, L - 1, L, L + 1, L + 2, 10 * L if L < 1000000 else L + 1000}):
                 for kind in ('text', 'binary'):
@@ -274,7 +290,7 @@ def run(ctx):
         'evaluations': n,
         'distinct_nontrivial': n,
         'rule': 'limits %r; POST bodies of length {0,1,L-2..L+2,10L} x declared length {actual,actual+-1,L,L+1,0} x '
-                '{text, base64} x ASGI chunking {one, many}%s; 0..18 packets per body; frames of length '
+                '{text, base64} x ASGI chunking {one, many}%s; 0..18 (and 40, 100) packets per body, plain and as d= form bodies (quote, quote_plus, raw separators); frames of length '
                 '{1,L-1,L,L+1,L+2,10L} x {text,binary} x stage {first frame of a ws-only session, probe frame, second '
                 'handshake frame, steady state} x pending poll; every case followed by %.0fs of virtual time and '
                 'liveness probes; both servers. All cases distinct.' % (LIMITS, '' if ctx.quick else ' x pending poll on/off', HORIZON),
@@ -296,7 +312,7 @@ def replay(ctx, payload):
     if isinstance(c, dict) and 'stage' in c:
         run_frame_case(r['impl'], c, out)
     elif isinstance(c, dict) and 'packets' in c:
-        run_count_case(r['impl'], c['packets'], out)
+        run_count_case(r['impl'], c['packets'], out, c.get('form'))
     else:
         run_post_case(r['impl'], c, out)
     for v in out:
